@@ -98,6 +98,7 @@ def main():
     m_out = {"property": pid, "summary": m.get("summary"), "needs_to_manifest": m.get("needs_to_manifest"),
              "files": m.get("files"), "author": "independent sub-agent (saw only the property text and a scratch worktree)",
              "confirmed": res, "tier": tier, "note": m.get("note"),
+             **({"excluded": m["excluded"]} if m.get("excluded") else {}),   # a seed kept for the record but not counted stays marked
              "how_run": f"tools/seedtest.py <dir> {pid} {kname} (scratch worktree of /repo HEAD + PYTHONPATH/CKT_REPO; /repo untouched)"}
     if not os.environ.get("SEEDTEST_NOWRITE"):
         (dst / "meta.json").write_text(json.dumps(m_out, indent=1))
